@@ -749,8 +749,11 @@ func c17Check(c c17Case) *kit.Fail {
 				if !(om.Min-tol <= om.Mean && om.Mean <= om.Max+tol) {
 					return kit.Failf("mean-outside", "unit %s %q config %d: min %v mean %v max %v", unit, r.Benchmark, ci, om.Min, om.Mean, om.Max)
 				}
+				// The statement promises min <= mean <= max literally (the
+				// incremental mean the library uses guarantees it; a naive
+				// sum/n does not, e.g. 0.1 three times). Added after a seeded change.
 				if om.Mean < om.Min || om.Mean > om.Max {
-					kit.Count("C17 mean outside [min,max] by rounding only", 1)
+					return kit.Failf("mean-outside-exact", "unit %s %q config %d: min %v <= mean %v <= max %v does not hold (retained %v)", unit, r.Benchmark, ci, om.Min, om.Mean, om.Max, rm.retained)
 				}
 				if rm.outliers > 0 {
 					kit.Count("C17 metrics with outliers removed", 1)
